@@ -334,9 +334,20 @@ def replay(ctx, case):
 
 
 MANIFEST = {
-    "text": "Lean theorems over the builder model (Props/C01.lean), tied to the source by a differential run of real bob dev/build "
-            "invocations against the model (micro-op order, persisted state, workspace contents) and an end-to-end oracle "
-            "(incremental workspace vs from-scratch build, repeated build is a no-op).",
-    "note": "trusted: Lean kernel, harness/props/c01.py, harness/gen/buildsim*.py, bash",
+    "text": "Proved in Lean over a hand-written model of LocalBuilder (Model/Builder.lean: the cook functions as micro-operation "
+            "programs in source order, un-hashed Merkle variant ids, persistent state as _BobState keeps it): cook preserves the "
+            "invariant Truthful for every flag set; a successful cook from any Truthful state leaves the data-flow solution in "
+            "every reachable workspace (cook_result_is_dataflow); hence incremental_eq_clean for every finite history of arbitrary "
+            "project states and flags; rebuild_is_noop (a repeated invocation starts no script but those of indeterministic "
+            "checkouts, prunes and creates nothing); oblivious_needed shows the develop-mode hypothesis is necessary. Hypotheses: "
+            "injective directory hash, deterministic/oblivious scripts (SemHyp), workspace paths identify steps, stable SCM layout "
+            "per checkout path, no --no-deps/--checkout-only in the final invocation. The model is tied to the current source by "
+            "constants regenerated from it (call order of the cook functions, invalidate-before-prune/switch) and by a differential "
+            "run of real bob dev/build invocations (micro-op order, persisted state, workspace contents, exit status, also for "
+            "--no-deps/--checkout-only/--force). The oracle compares incremental workspaces with from-scratch builds after generated "
+            "edit histories and checks that a repeated build re-executes nothing.",
+    "note": "trusted: Lean kernel, harness/props/c01.py, harness/gen/buildsim*.py, tools/consts/c01.py, bash; not covered: "
+            "archives/shared packages (C07/C15), sandbox, fingerprint scripts, --build-only/--resume, SCM switch and nested SCM "
+            "directories (C12), -j>1 scheduling (C06; exercised by the oracle only)",
     "technique": "Lean 4 proof over hand-written model + differential correspondence + end-to-end oracle",
 }
